@@ -123,7 +123,9 @@ Back(inst, s, a) == a < NDC(inst) /\ a \notin s.avail
 \* RETURN (where it already equals the node), never when a new depot is opened: current_depot keeps
 \* its reset value for the whole episode.  Consequences transcribed below: every route is accumulated
 \* in slot current_depot of current_length, arrival times continue across routes, the capacity of
-\* depot current_depot applies to every vehicle, and a finished row is offered depot current_depot.
+\* depot current_depot applies to every vehicle, a finished row is offered depot current_depot, and
+\* (three or more depots) a vehicle that is not the last one is offered depot current_depot as its
+\* "way home" -- a third visit of that depot -- while its own depot stays hidden.
 NewDepot(inst, s, a) == IF Back(inst, s, a) THEN a ELSE s.cd
 
 \* step length: 0 between two depots; 0 for the way home when routes are open
